@@ -821,7 +821,7 @@ func TestVerif_C03(t *testing.T) {
 	sb.WriteString("Definition c03_bad (c : c03_case) : bool :=\n  let '(cf, ca, p, has, perr, r, ck, iat, t0, t1, issued, va, vb) := c in\n  if perr && (p <? 2) then issued else negb (window_obs_ok_ca (ca_of ca) (nth cf configs []) limits_now (path_of p) (if has && negb perr then Some r else None) (cred_of ck iat) t0 t1 issued va vb).\n")
 	sb.WriteString("(* the property's own predicate on the observation (Model.Lifetime obs_starts_in_future / obs_ends_too_late) *)\n")
 	sb.WriteString("Definition c03_viol_future (c : c03_case) : bool :=\n  let '(cf, ca, p, has, perr, r, ck, iat, t0, t1, issued, va, vb) := c in issued && obs_starts_in_future t1 va.\n")
-	sb.WriteString("Definition c03_viol_toolong (c : c03_case) : bool :=\n  let '(cf, ca, p, has, perr, r, ck, iat, t0, t1, issued, va, vb) := c in\n  issued && negb (obs_starts_in_future t1 va) && obs_ends_too_late limits_now (path_of p) (if has && negb perr then Some r else None) (cred_of ck iat) t1 va vb.\n")
+	sb.WriteString("Definition c03_viol_toolong (c : c03_case) : bool :=\n  let '(cf, ca, p, has, perr, r, ck, iat, t0, t1, issued, va, vb) := c in\n  issued && obs_ends_too_late limits_now (path_of p) (if has && negb perr then Some r else None) (cred_of ck iat) t1 va vb.\n")
 	// sharded: one list literal of tens of thousands of tuples overflows coqc's stack (thorough tier)
 	const c03Shard = 2000
 	var shardNames []string
